@@ -55,6 +55,21 @@ Definition run (args : list bytes) : bytes :=
                       ++ sp ++ show_ids (txin_issuance_ids sha256d cmp256 (psetin_extract (psetin_from_txin i)))
           | None => "err"%lb end
       | _, _, _ => err "parse" end
+  | [ty; caps; pts; hx; vo] =>
+      (* "C11 mem <caps> <pts> <hex of TxIn> <vout dec>": the decoded input with its plain index REPLACED in memory — values no encoding carries
+         (an issuance on the all-ones index), on which the three views must still agree *)
+      if bytes_eqb ty "jsonc"%lb then run_jsonc [caps; pts; hx; vo] else
+      if negb (bytes_eqb ty "mem"%lb) then err "args" else
+      match caps5 caps, hexlist pts, hexarg hx, N_of_dec vo with
+      | Some (maxvec, ci, co, cv, ct), Some valid, Some input, Some v =>
+          match deserialize (c_txin (mem_bytes valid) maxvec) input with
+          | Some i0 =>
+              let i := {| in_prev := {| o_txid := o_txid (in_prev i0); o_vout := v |}; in_pegin := in_pegin i0; in_script := in_script i0; in_seq := in_seq i0;
+                          in_iss := in_iss i0; in_wit := in_wit i0 |} in
+              "ok "%lb ++ show_ids (txin_issuance_ids sha256d cmp256 i) ++ sp ++ show_ids (psetin_issuance_ids sha256d cmp256 (psetin_from_txin i))
+                      ++ sp ++ show_ids (txin_issuance_ids sha256d cmp256 (psetin_extract (psetin_from_txin i)))
+          | None => "err"%lb end
+      | _, _, _, _ => err "parse" end
   | [ty; _] => if bytes_eqb ty "json"%lb then "json"%lb else err "args"
   | ty :: rest => if bytes_eqb ty "jsonc"%lb then run_jsonc rest else err "args"
   | _ => err "args" end.
